@@ -64,9 +64,16 @@ def _housekeeping():
 
 @contextlib.contextmanager
 def _quiet():
+  """qtools prints progress lines and logs absl 'fatal' records for rank-3
+  (Conv1D) kernels; keep the worker logs readable."""
+  import logging  # pylint: disable=g-import-not-at-top
   buf = io.StringIO()
-  with contextlib.redirect_stdout(buf):
-    yield
+  logging.disable(logging.CRITICAL)
+  try:
+    with contextlib.redirect_stdout(buf):
+      yield
+  finally:
+    logging.disable(logging.NOTSET)
 
 
 def _eval_q(q, w):
@@ -481,14 +488,14 @@ def case_strategy(quick):
   def compute_layer(draw, kind, cur, prev_act):
     l = {"k": kind}
     if kind == "dense":
-      l["units"] = draw(st.integers(1, 4))
+      l["units"] = draw(st.integers(1, 4 if quick else 8))
     else:
       ks, stv, dil, pad = G.st_geometry(st, draw, kind, cur, quick)
       l.update(ks=ks, st=stv, dil=dil, pad=pad)
       if kind != "dw2d":
-        l["filters"] = draw(st.integers(1, 4))
+        l["filters"] = draw(st.integers(1, 4 if quick else 8))
     l["bias"] = draw(st.booleans())
-    l["kq"] = draw(G.st_kernel_q(st))
+    l["kq"] = draw(G.st_kernel_q(st, wide=not quick))
     if prev_act is not None and prev_act["t"] in ("bin", "ter") and \
         l["kq"]["t"] == "qb" and not G.is_auto(l["kq"]):
       # -1 x most-negative code is outside the domain (as min x min is)
@@ -502,19 +509,22 @@ def case_strategy(quick):
   def model_case(draw):
     first = draw(st.sampled_from(["dense", "conv1d", "conv2d", "dw2d"]))
     if first == "dense":
-      in_shape = [draw(st.sampled_from([1, 2, 3, 4, 5, 8, 9, 16]))]
+      in_shape = [draw(st.sampled_from([1, 2, 3, 4, 5, 8, 9, 16] if quick else
+                                       [1, 2, 3, 4, 5, 8, 9, 16, 31, 32, 33, 64]))]
       n_conv = 0
     elif first == "conv1d":
-      in_shape = [draw(st.integers(2, 8)), draw(st.sampled_from([1, 2, 3, 4]))]
+      in_shape = [draw(st.integers(2, 8 if quick else 12)),
+                  draw(st.sampled_from([1, 2, 3, 4] if quick else [1, 2, 3, 4, 8]))]
       n_conv = draw(st.integers(1, 2))
     else:
-      in_shape = [draw(st.integers(2, 6)), draw(st.integers(2, 6)),
-                  draw(st.sampled_from([1, 2, 3, 4]))]
+      in_shape = [draw(st.integers(2, 6 if quick else 10)),
+                  draw(st.integers(2, 6 if quick else 10)),
+                  draw(st.sampled_from([1, 2, 3, 4] if quick else [1, 2, 3, 4, 8]))]
       n_conv = draw(st.integers(1, 2))
     n_dense = draw(st.integers(1 if first == "dense" else 0, 2))
     src = draw(st.builds(lambda b, i: {"t": "qb", "bits": b, "int": min(i, b - 1),
                                        "sym": 1, "kn": 1, "alpha": None},
-                         st.integers(2, 8), st.integers(0, 2)))
+                         st.integers(2, 8 if quick else 12), st.integers(0, 2)))
     case = {"type": "model", "in_shape": in_shape}
     lead = None
     if draw(st.integers(0, 3)) == 0:
